@@ -7,7 +7,7 @@
 //
 //	R1 clock      time.Now (call or value), time.Since, time.Until -> verifNow / verifSince / verifUntil
 //	R2 pool       sync.Pool{New: ...}             -> verifPool{Name: "<var>", New: ...}
-//	R3 map order  range <package map | map field> -> range verifOrdered("<site>", <expr>)
+//	R3 map order  range <package map | map field> -> range verifOrdered("<site>", <expr>); sync.Map -> verifSyncMap (Range order)
 //	R4 yields     first statement of every func   -> verifYield(<n>)   (optional)
 //	R5 locks      sync.Mutex / sync.RWMutex       -> verifMutex / verifRWMutex (TryLock loop that reports
 //	                                                 "blocked" to the scheduler instead of blocking the
@@ -282,6 +282,16 @@ func Build(opt Options) (*Report, error) {
 							rep.Seams["R1"]++
 							rep.Sites = append(rep.Sites, fmt.Sprintf("R1 %s:%d %s", base, fset.Position(x.Pos()).Line, curFunc))
 							usedR1 = true
+						}
+						return true
+					}
+					// R3b: sync.Map in any type position -> a map whose Range order the simulator decides
+					if syncAlias != "" && x.Sel.Name == "Map" {
+						if id, ok := x.X.(*ast.Ident); ok && id.Name == syncAlias && id.Obj == nil {
+							edits = append(edits, edit{off(x.Pos()), off(x.End()) - off(x.Pos()), "verifSyncMap"})
+							rep.Seams["R3"]++
+							rep.Sites = append(rep.Sites, fmt.Sprintf("R3 %s:%d sync.Map in %s", base, fset.Position(x.Pos()).Line, curFunc))
+							usedR5 = true
 						}
 						return true
 					}
@@ -645,6 +655,43 @@ type rlocker struct{ m *verifRWMutex }
 
 func (r rlocker) Lock()   { r.m.RLock() }
 func (r rlocker) Unlock() { r.m.RUnlock() }
+
+// verifSyncMap is sync.Map with a Range order the simulator decides (same hook as rule R3).
+type verifSyncMap struct{ m sync.Map }
+
+func (s *verifSyncMap) Load(k any) (any, bool)                  { return s.m.Load(k) }
+func (s *verifSyncMap) Store(k, v any)                          { s.m.Store(k, v) }
+func (s *verifSyncMap) LoadOrStore(k, v any) (any, bool)        { return s.m.LoadOrStore(k, v) }
+func (s *verifSyncMap) LoadAndDelete(k any) (any, bool)         { return s.m.LoadAndDelete(k) }
+func (s *verifSyncMap) Delete(k any)                            { s.m.Delete(k) }
+func (s *verifSyncMap) Swap(k, v any) (any, bool)               { return s.m.Swap(k, v) }
+func (s *verifSyncMap) CompareAndSwap(k, o, n any) bool         { return s.m.CompareAndSwap(k, o, n) }
+func (s *verifSyncMap) CompareAndDelete(k, o any) bool          { return s.m.CompareAndDelete(k, o) }
+func (s *verifSyncMap) Clear()                                  { s.m.Clear() }
+func (s *verifSyncMap) Range(f func(k, v any) bool) {
+	h := VerifMapOrder
+	if h == nil {
+		s.m.Range(f)
+		return
+	}
+	var keys []any
+	s.m.Range(func(k, _ any) bool { keys = append(keys, k); return true })
+	slices.SortFunc(keys, func(a, b any) int { return cmp.Compare(fmt.Sprint(a), fmt.Sprint(b)) })
+	perm := h("sync.Map", len(keys))
+	for i := range keys {
+		j := i
+		if i < len(perm) && perm[i] >= 0 && perm[i] < len(keys) {
+			j = perm[i]
+		}
+		v, ok := s.m.Load(keys[j])
+		if !ok {
+			continue
+		}
+		if !f(keys[j], v) {
+			return
+		}
+	}
+}
 
 // VerifYield is the fine-grained preemption seam (rule R4).
 var VerifYield func(site int)
